@@ -339,6 +339,19 @@ impl ArrayImpl {
             (A::Interval(a), A::Interval(b)) => {
                 A::new_interval(select_op(s.as_ref(), a.as_ref(), b.as_ref()))
             }
+            (A::Bool(a), A::Bool(b)) => A::new_bool(select_op(s.as_ref(), a.as_ref(), b.as_ref())),
+            (A::Timestamp(a), A::Timestamp(b)) => {
+                A::new_timestamp(select_rows(s.as_ref(), a.as_ref(), b.as_ref()))
+            }
+            (A::TimestampTz(a), A::TimestampTz(b)) => {
+                A::new_timestamp_tz(select_rows(s.as_ref(), a.as_ref(), b.as_ref()))
+            }
+            (A::String(a), A::String(b)) => {
+                A::new_string(select_rows(s.as_ref(), a.as_ref(), b.as_ref()))
+            }
+            (A::Blob(a), A::Blob(b)) => {
+                A::new_blob(select_rows(s.as_ref(), a.as_ref(), b.as_ref()))
+            }
             _ => {
                 return Err(ConvertError::NoBinaryOp(
                     "case".into(),
@@ -978,6 +991,17 @@ where
     let mut valid = cond.and(a.get_valid_bitmap());
     valid.or(&cond.not_then_and(b.get_valid_bitmap()));
     A::from_data(it, valid)
+}
+
+/// `select_op` for arrays that are not built from raw data (variable-width values).
+fn select_rows<A: Array>(s: &BoolArray, a: &A, b: &A) -> A {
+    assert_eq!(a.len(), b.len());
+    let mut builder = A::Builder::with_capacity(a.len());
+    for (i, cond) in s.iter().enumerate() {
+        // the condition holds only where it is TRUE: a FALSE or NULL condition selects `b`
+        builder.push(if cond == Some(&true) { a.get(i) } else { b.get(i) });
+    }
+    builder.finish()
 }
 
 fn ternary_op<A, B, C, O, F, V>(a: &A, b: &B, c: &C, f: F) -> O
